@@ -404,6 +404,19 @@ example : ∀ x ∈ [V.map [(.str [107], .str [97])], .map [(.str [107], .str [6
   simp only [List.mem_cons, List.not_mem_nil, or_false] at hx
   rcases hx with rfl | rfl | rfl <;> simp [keyOf, attrOr, getByStr, scanStr, MJ.Gen.valueMapStrScanMax, AllNum, N.WF, P64, i64Min, i64Max, u64Max]
 
+/-- `sort(attribute="a, b")` (several attributes): the same laws, keyed by the list of the attribute
+    values (compared as a list: no case folding inside) -/
+theorem sort_multi_attribute_spec (m : Mode) (cs rev : Bool) (names : List (List Nat)) (xs : List V)
+    (h : ∀ x ∈ xs, MJ.C07.InRange (keyMulti m names x)) :
+    (sortMultiV m cs rev names xs).Perm xs ∧
+    (sortMultiV m cs rev names xs).Pairwise (fun a b => cmpHelper cs rev (keyMulti m names a) (keyMulti m names b) ≠ .gt) ∧
+    (∀ a b, [a, b].Sublist xs → cmpHelper cs rev (keyMulti m names a) (keyMulti m names b) = .eq →
+      [a, b].Sublist (sortMultiV m cs rev names xs)) :=
+  sortMultiV_spec m cs rev names xs h
+
+example : MJ.C07.InRange (keyMulti .btree [[103], [107]] (.map [(.str [103], .num (.u64 1)), (.str [107], .str [65])])) := by
+  simp [keyMulti, attrOr, getByStr, scanStr, MJ.Gen.valueMapStrScanMax, AllNum, AllNumL, N.WF, u64Max]
+
 /-- `dictsort(case_sensitive, reverse, by)`: a stable sort of the `(key, value)` pairs by the key or
     the value projection -/
 theorem dictsort_spec (cs rev byValue : Bool) (ps : List (V × V))
